@@ -68,7 +68,7 @@ def gen_case(rng):
     if rng.random() < 0.04:
         # degenerate arguments: no step can bring t closer to the target; integrate() must refuse, not run forever
         r = rng.random()
-        if r < 0.4: dt = 0.0
+        if r < 0.4: dt = rng.choice([0.0, -0.0])
         elif r < 0.7: dt = float("nan")
         else: targets[rng.randrange(len(targets))] = float("nan")
     gone = None
@@ -279,6 +279,40 @@ def run(ctx):
                               "final": {"t": sim.t, "dt": sim.dt, "status": st, "steps": sim.steps_done - steps0}})
             if why or st != 0:
                 break
+    # the contract AFTER an error path was taken once on the same object: a call that raised (unsupported option, degenerate
+    # arguments, refused configuration) must not make the next, valid call fail or stop short of its target
+    def _bad_janus(sim): sim.integrator = "janus"; sim.ri_janus.order = 5
+    def _fix_janus(sim): sim.ri_janus.order = rng.choice([2, 4, 6])
+    def _bad_dt(sim): sim.dt = rng.choice([0.0, float("nan")])
+    def _fix_dt(sim): sim.dt = 0.01
+    def _bad_saba(sim): sim.integrator = "saba"; sim.ri_saba.type = "(10,6,4)"; sim.ri_whfast.coordinates = "whds"; sim.ri_saba.safe_mode = 1
+    def _fix_saba(sim): sim.ri_whfast.coordinates = "jacobi"
+    def _bad_tmax(sim): pass
+    for rep in range(ctx.scale(8, 40)):
+        name, bad, fix = rng.choice([("janus-order", _bad_janus, _fix_janus), ("dt-degenerate", _bad_dt, _fix_dt),
+                                     ("tmax-nan", _bad_tmax, _bad_tmax), ("saba-coordinates", _bad_saba, _fix_saba)])
+        sim = new_sim(rebound, rng.choice(["whfast", "leapfrog", "ias15", "saba"]), 0.0, 0.01)
+        import warnings as _w
+        with _w.catch_warnings():
+            _w.simplefilter("ignore")
+            bad(sim)
+            raised = False
+            try:
+                sim.integrate(float("nan") if name == "tmax-nan" else sim.t + 0.5)
+            except Exception:
+                raised = True
+            fix(sim)
+            t_before = sim.t; tm = t_before + rng.choice([0.3, 1.0])
+            err = None
+            try:
+                sim.integrate(tm)
+            except Exception as ex:
+                err = repr(ex)[:160]
+        ctx.case(key=("after-error", name, raised))
+        if raised and (err is not None or sim._status != 0 or not (sim.t == tm or abs(sim.t - tm) < 1e-12 * abs(tm))):
+            fails.append({"why": "after a call that raised (%s) the next valid integrate(%r) on the same object %s: t=%r status=%d"
+                                 % (name, tm, ("raised " + err) if err else "did not reach its target", sim.t, sim._status),
+                          "scenario": name, "integrator_after": sim.integrator})
     # split == direct, bitwise, fixed-step, exact_finish_time=0
     for k in range(ctx.scale(60, 600)):
         integ = ["leapfrog", "whfast", "saba", "eos", "janus", "none"][k % 6]
@@ -309,7 +343,7 @@ def run(ctx):
                 "dt larger than the interval, tmax = t0, tmax = 0, both directions, dt sign against direction; distinct by (integrator, exact, status, steps, #targets)")
     ctx.assumptions += [
         "PAUSED/SCREENSHOT states, usleep, MPI and tmax=INFINITY are outside the model; N==0 is modelled as a history (the boundary at which the last particle vanishes), user ODEs without particles are not",
-        "dt = -0.0 excluded (copysign(1.,dt) modelled as dt<0 ? -1 : 1)",
+        "copysign(1.,dt) is modelled as dt<0 ? -1 : 1; they differ only for dt = -0.0, which integrate() refuses (tmax != t) or never looks at (tmax == t: SUCCESS before any use of the sign); -0.0 is among the generated steps",
         "termination in binary64 is not a theorem: the model runs on fuel and reports exhaustion; the R theorems give the step count",
         "adaptive integrators (IAS15, BS) and hybrid rejections are covered by the library-only contract oracle, not by the stepper models",
     ]
